@@ -265,11 +265,26 @@ def base_profile_yaml(options):
     return prof
 
 
+_SHARED = {}
+
+
+@contextlib.contextmanager
+def profile_dir():
+    """ONE directory for the whole run: every case rewrites the same profile files (p.yml, w.yml) with new contents, as a user who
+    edits a profile and runs again does; a load must give what the file says now, whatever was loaded from that path before"""
+    if "d" not in _SHARED:
+        import atexit
+        import shutil
+        _SHARED["d"] = tempfile.mkdtemp(prefix="c18_")
+        atexit.register(shutil.rmtree, _SHARED["d"], ignore_errors=True)
+    yield _SHARED["d"]
+
+
 def impl_profile(options, kw, doc):
     import yaml
     from aldy.profile import Profile
     from aldy.common import AldyException
-    with tempfile.TemporaryDirectory() as d:
+    with profile_dir() as d:
         path = os.path.join(d, "p.yml")
         with open(path, "w") as f:
             f.write(yaml.dump(base_profile_yaml(dict(options)), default_flow_style=None))
@@ -311,8 +326,8 @@ def impl_write_load(kw, doc):
     from aldy.profile import Profile
     from aldy.common import AldyException, GRange
     g = toy()
-    with tempfile.TemporaryDirectory() as d:
-        bam = tiny_bam(d)
+    with profile_dir() as d:
+        bam = _BAM.get("t") or _BAM.setdefault("t", tiny_bam(d))
         regions = {(g.name, r, gi): rng for gi, gr in enumerate(g.regions) for r, rng in gr.items()}
         try:
             data = Profile.get_sam_profile_data(bam, regions=regions, cn_region=GRange(g.chr, 100000000, 100000100),
